@@ -2,6 +2,8 @@ package e1
 
 import (
 	"bytes"
+	"crypto/hmac"
+	"crypto/sha256"
 	"encoding/base64"
 	"encoding/hex"
 	"encoding/json"
@@ -283,6 +285,46 @@ func runAccess(c *sim.Ctx) {
 	c.Sample = append(c.Sample, fmt.Sprintf("api sets %v csrf=%v headers=%v credentials=%v, %d requests over %d documented routes", keysOf(cfg.EnabledAPISets), !cfg.DisableCSRF, !cfg.DisableHeaderCheck, cfg.Username != "", n, len(routes)))
 	var current, superseded, expired string
 	var expiredAt time.Time
+	if !cfg.DisableCSRF && t.Chance("fresh-node-forgery", 1, 3) {
+		// an outsider's first move against a node that has not issued any token yet: a state-changing request,
+		// everything else in order, carrying a well-formed token signed with a guessable key
+		var cand []route
+		for _, rt := range routes {
+			on := len(rt.sets) == 0
+			for _, s := range rt.sets {
+				if _, ok := cfg.EnabledAPISets[s]; ok {
+					on = true
+				}
+			}
+			if on && rt.methods["POST"] && rt.uri != "/api/v1/csrf" {
+				cand = append(cand, rt)
+			}
+		}
+		if len(cand) > 0 {
+			rt := cand[t.Int("fresh-route", len(cand))]
+			q := apiReq{method: "POST", uri: rt.uri, host: apiHost, token: forgeToken(t.Int("fresh-key", 3))}
+			if strings.HasPrefix(rt.uri, "/api/v2/") {
+				q.ctype, q.body = "application/json", "{}"
+			} else {
+				q.ctype = "application/x-www-form-urlencoded"
+			}
+			if cfg.Username != "" || cfg.Password != "" {
+				q.hasAuth, q.user, q.pass = true, cfg.Username, cfg.Password
+			}
+			resp := a.do(q)
+			c.Count("fault.forged_token_before_first_issue")
+			c.Count("probe.refusal_expected")
+			c.Logf("fresh-node forgery POST %s -> %d", rt.uri, resp.status)
+			if resp.panicked != nil {
+				c.Violate("handler-panic", rt.uri, "POST %s panicked: %v", rt.uri, resp.panicked)
+				return
+			}
+			if resp.status != 403 {
+				c.Violate("access-control-bypassed", "csrf", "POST %s with a token signed with a guessable key, sent before the node issued any token, was answered %d instead of 403", rt.uri, resp.status)
+				return
+			}
+		}
+	}
 	for c.Step = 1; c.Step <= n && !c.Failed(); c.Step++ {
 		rt := routes[t.Int("route", len(routes))]
 		method := []string{"GET", "POST", "PUT", "DELETE", "HEAD"}[t.Pick("method", 6, 6, 1, 2, 1)]
@@ -335,7 +377,7 @@ func runAccess(c *sim.Ctx) {
 				failing["host"] = true
 			}
 		}
-		switch t.Pick("origin", 8, 2, 2, 1, 1) {
+		switch t.Pick("origin", 8, 2, 2, 1, 1, 1, 1, 1) {
 		case 1:
 			q.origin = "http://" + apiHost
 		case 2:
@@ -351,6 +393,23 @@ func runAccess(c *sim.Ctx) {
 		case 4:
 			q.origin = "http://wallet.example:8080"
 			if headerCheck && len(cfg.HostWhitelist) == 0 {
+				failing["origin"] = true
+			}
+		case 5: // opaque origin (sandboxed frame, data: URL): a present, unacceptable Origin header
+			q.origin = "null"
+			if headerCheck {
+				failing["origin"] = true
+				c.Count("fault.opaque_origin")
+			}
+		case 6: // Origin is checked first: a foreign Origin is not rescued by an acceptable Referer
+			q.origin = []string{"null", "http://evil.example"}[t.Int("origin6", 2)]
+			q.referer = "http://" + apiHost + "/page"
+			if headerCheck {
+				failing["origin"] = true
+			}
+		case 7: // malformed
+			q.origin = []string{"http://%zz", "://", "http//" + apiHost, apiHost}[t.Int("origin7", 4)]
+			if headerCheck {
 				failing["origin"] = true
 			}
 		}
@@ -405,9 +464,14 @@ func runAccess(c *sim.Ctx) {
 				if !cfg.DisableCSRF {
 					failing["csrf"] = true
 				}
-			case 5: // forged with a foreign key
-				payload := base64.RawURLEncoding.EncodeToString([]byte(`{"Nonce":"AAAA","ExpiresAt":"2099-01-01T00:00:00Z"}`))
-				q.token = payload + "." + base64.RawURLEncoding.EncodeToString(make([]byte, 32))
+			case 5: // forged: zero signature, or a correctly formed token signed with a key an outsider can guess
+				if k := t.Int("forge-key", 4); k > 0 {
+					q.token = forgeToken(k - 1)
+					c.Count("fault.forged_token_guessable_key")
+				} else {
+					payload := base64.RawURLEncoding.EncodeToString([]byte(`{"Nonce":"AAAA","ExpiresAt":"2099-01-01T00:00:00Z"}`))
+					q.token = payload + "." + base64.RawURLEncoding.EncodeToString(make([]byte, 32))
+				}
 				if !cfg.DisableCSRF {
 					failing["csrf"] = true
 				}
@@ -473,6 +537,16 @@ func runAccess(c *sim.Ctx) {
 			return
 		}
 	}
+}
+
+// forgeToken builds a token of the documented shape (base64url(JSON{Nonce,ExpiresAt}) "." base64url(HMAC-SHA256))
+// signed with a key that needs no knowledge of the node: empty, all-zero of the secret's length, or a constant.
+func forgeToken(kind int) string {
+	key := [][]byte{nil, make([]byte, 64), []byte("secret")}[kind%3]
+	js := []byte(`{"Nonce":"` + base64.StdEncoding.EncodeToString(make([]byte, 64)) + `","ExpiresAt":"2099-01-01T00:00:00Z"}`)
+	h := hmac.New(sha256.New, key)
+	h.Write(js)
+	return base64.RawURLEncoding.EncodeToString(js) + "." + base64.RawURLEncoding.EncodeToString(h.Sum(nil))
 }
 
 func statusList(m map[int]bool) []int {
@@ -543,6 +617,26 @@ func runAPICrash(c *sim.Ctx) {
 			a.w.sign(pub.m, &alt)
 			rawtxs = append(rawtxs, hex.EncodeToString(alt.Encode()))
 		}
+	}
+	// extreme amounts on transactions whose inputs the node knows (unspent: pooled; spent: confirmed)
+	extreme := func(tx model.Txn) {
+		for _, v := range []uint64{1 << 63, ^uint64(0), 0, 1<<63 - 1} {
+			alt := tx
+			alt.Out = append([]model.Out{}, tx.Out...)
+			k := int(v % uint64(len(alt.Out)))
+			alt.Out[k].Coins = v
+			if v&1 == 1 {
+				alt.Out[k].Hours = ^uint64(0)
+			}
+			a.w.sign(pub.m, &alt)
+			rawtxs = append(rawtxs, hex.EncodeToString(alt.Encode()))
+		}
+	}
+	if hs := pub.m.PoolHashes(); len(hs) > 0 {
+		extreme(pub.m.Pool[hs[0]].Txn)
+	}
+	if len(a.chain) > 0 && len(a.chain[len(a.chain)-1].Txns) > 0 {
+		extreme(a.chain[len(a.chain)-1].Txns[0])
 	}
 	rawtxs = append(rawtxs, "00", "zz", "", strings.Repeat("00", 37))
 	n := t.Range("api-requests", 20, 80)
